@@ -22,7 +22,8 @@ Record stage := ST {
   st_reps : list (list N);
   st_reps_rf : list (list N) }.
 
-Definition D (k : string) (tag : N) : (list N * N) := (unhex k, tag).
+(* a delta: key (hex), payload tag, source_replica (the origin, independent of the sender) *)
+Definition D (k : string) (tag origin : N) : (list N * (N * N)) := (unhex k, (tag, origin)).
 
 (* how a router was made *)
 Inductive rmake :=
@@ -31,13 +32,13 @@ Inductive rmake :=
 
 Record rcase := RC {
   rc_make : rmake;
-  rc_deltas : list (list N * N);
+  rc_deltas : list (list N * (N * N));
   rc_peers : list (N * N);                 (* peer_addresses sorted by id: (id, address index) *)
   rc_selective : bool;                     (* is_selective() *)
-  rc_table : list (N * list N);            (* route_deltas: sorted by target, payload tags in order *)
-  rc_batches : list (list (list N * N));   (* queue_deltas calls, advance_epoch before each *)
-  rc_queue : list (option N * (N * (N * (N * (list N * N))))) }.
-    (* outbound queue: (target, (kind 0=DeltaBatch 1=TargetedDelta, src, tgt, tags, epoch)),
+  rc_table : list (N * list (N * N));      (* route_deltas: sorted by target, (tag, origin) of the deltas in order *)
+  rc_batches : list (list (list N * (N * N)));   (* queue_deltas calls, advance_epoch before each *)
+  rc_queue : list (option N * (N * (N * (N * (list (N * N) * N))))) }.
+    (* outbound queue: (target, (kind 0=DeltaBatch 1=TargetedDelta, src, tgt, (tag, origin) list, epoch)),
        the targeted messages of one call sorted by target *)
 
 Record case := K {
@@ -93,26 +94,27 @@ Definition mk_router (R : ring) (m : rmake) : router :=
   | RCfg rid np sel part en => from_config rid np sel part en R
   end.
 
-Definition tags (ds : list (list N * N)) : list N := map snd ds.
-Definition canon_table (t : list (N * list (list N * N))) : list (N * list N) :=
+Definition tags (ds : list (list N * (N * N))) : list (N * N) := map snd ds.
+Definition canon_table (t : list (N * list (list N * (N * N)))) : list (N * list (N * N)) :=
   sort_key (map (fun p => (fst p, tags (snd p))) t).
-Definition tbl_eqb (a b : list (N * list N)) : bool :=
-  list_eqb (fun x y => (fst x =? fst y) && nl_eqb (snd x) (snd y)) a b.
+Definition pl_eqb := list_eqb pair_eqb.
+Definition tbl_eqb (a b : list (N * list (N * N))) : bool :=
+  list_eqb (fun x y => (fst x =? fst y) && pl_eqb (snd x) (snd y)) a b.
 
-Definition canon_msg (m : option N * gmsg) : option N * (N * (N * (N * (list N * N)))) :=
+Definition canon_msg (m : option N * gmsg) : option N * (N * (N * (N * (list (N * N) * N)))) :=
   match snd m with
   | DeltaBatch src ds ep => (fst m, (0, (src, (0, (tags ds, ep)))))
   | TargetedDelta src tgt ds ep => (fst m, (1, (src, (tgt, (tags ds, ep)))))
   end.
 Definition optN_eqb (a b : option N) : bool :=
   match a, b with Some x, Some y => x =? y | None, None => true | _, _ => false end.
-Definition msg_eqb (a b : option N * (N * (N * (N * (list N * N))))) : bool :=
+Definition msg_eqb (a b : option N * (N * (N * (N * (list (N * N) * N))))) : bool :=
   let '(ta, (ka, (sa, (ga, (da, ea))))) := a in
   let '(tb, (kb, (sb, (gb, (db, eb))))) := b in
-  optN_eqb ta tb && (ka =? kb) && (sa =? sb) && (ga =? gb) && nl_eqb da db && (ea =? eb).
+  optN_eqb ta tb && (ka =? kb) && (sa =? sb) && (ga =? gb) && pl_eqb da db && (ea =? eb).
 
 Definition os0 : N -> nat := fun _ => O.
-Definition run_queue (r : router) (batches : list (list (list N * N))) : list (option N * gmsg) :=
+Definition run_queue (r : router) (batches : list (list (list N * (N * N)))) : list (option N * gmsg) :=
   g_queue (fold_left (fun g b => queue_deltas fast_kpos (@sort_key _) os0 (advance_epoch g) b)
                      batches (GState (gr_me r) 0 [] (Some r))).
 
